@@ -83,3 +83,12 @@ package acpi
 //@   loop 2 (curPtr < rsdpLocationHi) invariant scan: curPtr >= 0xe0000 && curPtr&15 == 0 && curPtr <= 0x100000 && forall(c, uintptr, isCand(c) && c < curPtr ==> !validRSDP(c))
 //@   loop 3 (range rsdpSignature) invariant rangeindex >= -1 && rangeindex < 8 && addrof(rsdp) == curPtr
 //@   loop 3 invariant (rangeindex >= 0 ==> mem8(curPtr) == 'R') && (rangeindex >= 1 ==> mem8(curPtr+1) == 'S') && (rangeindex >= 2 ==> mem8(curPtr+2) == 'D') && (rangeindex >= 3 ==> mem8(curPtr+3) == ' ') && (rangeindex >= 4 ==> mem8(curPtr+4) == 'P') && (rangeindex >= 5 ==> mem8(curPtr+5) == 'T') && (rangeindex >= 6 ==> mem8(curPtr+6) == 'R') && (rangeindex >= 7 ==> mem8(curPtr+7) == ' ')
+
+// probeForACPI: a driver is returned exactly when a valid root pointer was located, and it
+// carries the located root-table address and entry width; otherwise nil
+//@ func probeForACPI() (d device.Driver)
+//@   property C14
+//@   requires vmm.mapCalls < 0x1000000000000 && foreignErrs()
+//@   modifies vmm.mapCalls, vmm.mapLogPage, vmm.mapLogFrame, vmm.mapLogFlags, vmm.pageTables
+//@   ensures found: !isnil(d) ==> typeis(d, *acpiDriver) && exists(a, uintptr, isCand(a) && validRSDP(a)) && forall(a, uintptr, isCand(a) && validRSDP(a) && forall(c, uintptr, isCand(c) && c < a ==> !validRSDP(c)) ==> unbox(d, *acpiDriver).useXSDT == (mem8(a+15) != 0) && unbox(d, *acpiDriver).rsdtAddr == ite(mem8(a+15) == 0, uintptr(mem32(a+16)), uintptr(mem64(a+24))))
+//@   ensures none: forall(c, uintptr, isCand(c) ==> !validRSDP(c)) ==> isnil(d)
